@@ -32,7 +32,7 @@ R1 = "sales@example.com"
 BAD = ["bad", "x@y@z"]
 ROLES = [R1]
 FOLDERS = {"la": "INBOX", "lb": "D"}
-CLASS_NAMES = {2: "dup_rcpt_last_result", 3: "noboundary_unfetchable"}   # 1 = single_554, repaired by raven aeac4b2
+CLASS_NAMES = {2: "dup_rcpt_last_result"}   # retired: 1 = single_554 (raven aeac4b2), 3 = noboundary_unfetchable (raven f7e0490)
 
 
 # --------------------------------------------------------------------------
@@ -231,7 +231,7 @@ class Scen:
                         continue
                     miss = [tk for tk in msg["tokens"] if tk not in body]
                     if g is None or g[2] == 0 or body == "" or miss:
-                        cls = "noboundary_unfetchable" if (msg["shape"] == "nob" and body == "" and g is not None and g[2] == 0) else None
+                        cls = None
                         self.viol.append((ti, "unfetchable", "store %r UID %d in %s: %s (part rows %s, literal of %d bytes)" % (
                             k, l[3], mbn_final.get(l[2]), "BODY[] is empty" if body == "" else "BODY[] lacks %r" % miss[:3], g[2] if g else None, len(body)), cls))
         # STATUS tells what the dump holds
